@@ -2265,6 +2265,23 @@ def bin_term(op, a, b):
         return ('lit', (a[1] == b[1]) == (op == 'Eq'))
     if op in ('Eq', 'Ne') and a[0] == 'ctor' and b[0] == 'ctor' and not a[2] and not b[2]:
         return ('lit', (a[1] == b[1]) == (op == 'Eq'))
+    if op in ('Eq', 'Ne') and (a[0] != 'lit' or b[0] != 'lit') and std_ground(a) and std_ground(b):
+        # Option / Result / tuple values all of whose parts are literals: std's PartialEq for them is structural - the same variant
+        # (the same arity) and equal payloads, the payloads compared as literals are (above)
+        def same(x, y):
+            if x[0] == 'lit' and y[0] == 'lit':
+                r = bin_term('Eq', x, y)
+                return r[1] if r[0] == 'lit' and isinstance(r[1], bool) else None
+            if x[0] != y[0] or x[0] == 'lit':
+                return None if 'lit' in (x[0], y[0]) else False
+            xs, ys = (x[2], y[2]) if x[0] == 'ctor' else (x[1], y[1])
+            if (x[0] == 'ctor' and x[1] != y[1]) or len(xs) != len(ys):
+                return False
+            rs = [same(p, q) for p, q in zip(xs, ys)]
+            return False if False in rs else None if None in rs else True
+        r = same(a, b)
+        if r is not None:
+            return ('lit', r == (op == 'Eq'))
     if op in ('Eq', 'Ne') and a == b and a[0] == 'call' and a[3] is None and not leaves(a, lambda z: z[0] == 'unk'):
         # the same pure observer (`len`, `is_empty`, ...: site None, see PURE_OBSERVERS) of the same terms is one and the same value -
         # the assumption `St.known` already makes when the same test is met twice on a path
@@ -2388,6 +2405,14 @@ def ground(t):
         # lber::structure::StructureTag values handed to a decoder, say)
         return all(ground(v) for _n, v in t[2])
     return False
+
+def std_ground(t):
+    """t is a completely known value built from literals with Option / Result constructors and tuples only"""
+    if t[0] == 'lit':
+        return True
+    if t[0] == 'ctor':
+        return t[1] in ('Some', 'None', 'Ok', 'Err') and all(std_ground(x) for x in t[2])
+    return t[0] == 'tuple' and all(std_ground(x) for x in t[1])
 
 def vec_truncate(c, n):
     """The content of vector term c after truncate(n)."""
